@@ -116,7 +116,7 @@ func build(r *rand.Rand) (*env, rt.J) {
 			num, d := genFrac(r, dyadic, &remaining)
 			p := &part{Name: allKeys[i], Num: num, Den: d}
 			e.m.Parts = append(e.m.Parts, p)
-			lp := strategy.NewLookupPartitionWithMetricRegistry(p.Name, p.frac(), int32(1+r.IntN(20)), core.EmptyMetricRegistryInstance)
+			lp := strategy.NewLookupPartitionWithMetricRegistry(objName(r, p.Name), p.frac(), int32(1+r.IntN(20)), core.EmptyMetricRegistryInstance)
 			parts[p.Name] = lp
 			e.lparts[p] = lp
 			pdesc = append(pdesc, fmt.Sprintf("%s=%d/%d", p.Name, num, d))
@@ -160,6 +160,15 @@ func build(r *rand.Rand) (*env, rt.J) {
 	}
 	desc["kind"], desc["partitions"], desc["remaining_fraction_units"] = e.kind, pdesc, remaining
 	return e, desc
+}
+
+// objName: the name a lookup partition object reports (a metric tag) is independent of the key it is registered
+// under (which routes requests); half of the objects are named after another routable key.
+func objName(r *rand.Rand, key string) string {
+	if r.IntN(2) == 0 {
+		return key
+	}
+	return allKeys[r.IntN(6)]
 }
 
 func keysOf(m map[string]bool) []string {
@@ -383,7 +392,22 @@ func sequential(idx int64, r *rand.Rand) {
 					if shareExact(e.m.Limit, p) != shareFloat(e.m.Limit, p) {
 						continue
 					}
-					lp := strategy.NewLookupPartitionWithMetricRegistry(p.Name, p.frac(), int32(1+r.IntN(20)), core.EmptyMetricRegistryInstance)
+					if r.IntN(3) == 0 {
+						// a key that is already registered must be refused whatever the new object calls itself, and nothing may change
+						for _, k := range allKeys[:6] {
+							if e.route(k) != e.m.Unknown {
+								dup := strategy.NewLookupPartitionWithMetricRegistry(objName(r, p.Name), p.frac(), 1, core.EmptyMetricRegistryInstance)
+								if e.look.AddPartition(k, dup) {
+									fail("add-partition-accepted-a-registered-key", rt.J{"key": k, "object_name": dup.Name()})
+									return
+								}
+								ops = append(ops, fmt.Sprintf("AddPartition(%s, object %q)=false", k, dup.Name()))
+								rt.Count("partition_duplicate_adds_refused", 1)
+								break
+							}
+						}
+					}
+					lp := strategy.NewLookupPartitionWithMetricRegistry(objName(r, p.Name), p.frac(), int32(1+r.IntN(20)), core.EmptyMetricRegistryInstance)
 					if !e.look.AddPartition(p.Name, lp) {
 						fail("add-partition-refused", rt.J{"name": p.Name})
 						return
